@@ -274,7 +274,23 @@ func posClass(path []string) string {
 // marker: "col DESC" is documented index syntax.
 var c15Markers = []string{`m1'm`, `m2"m`, `m3;m`, `m4)m`, `m5(m`, `m6--m`, `m7$$m`, `m8\m`, `m9.m`}
 
-var c15Forms = []string{"whole", "suffix", "prefix", "after-space", "after-direction"}
+var c15Forms = []string{"whole", "suffix", "prefix", "after-space", "after-direction", "meta-first", "meta-last", "meta-only"}
+
+// c15Meta[i] is the hostile part of c15Markers[i]; forms 5-7 put it FIRST ('m1m), LAST (m1m') and alone (').
+var c15Meta = []string{`'`, `"`, `;`, `)`, `(`, `--`, `$$`, `\`, `.`}
+
+// c15IdentifierLike: positions that hold an identifier or a type (quick tier runs the extra forms and the
+// disabled-integration dimension on these; thorough on every leaf).
+func c15IdentifierLike(path []string) bool {
+	return c15Eligible(path) || posClass(path) == "table.columns[].type"
+}
+
+// c15EnvPosition: the value is decoded through wos.EnvString, which treats a leading '$' as the name of an
+// environment variable and ends the process when it is not set.
+func c15EnvPosition(pc string) bool {
+	return strings.HasPrefix(pc, "source.") || strings.HasPrefix(pc, "srcref.") || pc == "dashboard.root_password" ||
+		strings.HasPrefix(pc, "linked:source.")
+}
 
 // c15SpaceForm: positions with the documented "<column> ASC|DESC" syntax (and their neighbour, the unique
 // list) additionally get "<column> <marker>": whatever follows the space must be a direction, nothing else.
@@ -296,6 +312,12 @@ func c15Variant(val string, marker, form int) string {
 	case 4:
 		col, _, _ := strings.Cut(val, " ")
 		return col + " desc " + m
+	case 5:
+		return fmt.Sprintf("%sm%dm", c15Meta[marker], marker+1)
+	case 6:
+		return fmt.Sprintf("m%dm%s", marker+1, c15Meta[marker])
+	case 7:
+		return c15Meta[marker]
 	}
 	return m
 }
@@ -362,8 +384,18 @@ func linkGroups(tree any) []linkGroup {
 // needles returns the texts whose occurrence in SQL means the hostile value was spliced: the marker
 // itself and its JSON-escaped spelling (wos.EnvString strips the quotes of a JSON string WITHOUT
 // unescaping it, so a source name keeps the backslash of \" and \\ — still hostile).
-func c15Needles(marker int) []string {
+func c15Needles(marker int) []string { return c15NeedlesFor(marker, 0) }
+
+// c15NeedlesFor: forms 5 and 6 are searched as the whole variant; the bare metacharacter (form 7) cannot be
+// searched for (every statement contains quotes and parentheses): it is judged by consistency only.
+func c15NeedlesFor(marker, form int) []string {
 	m := c15Markers[marker]
+	switch form {
+	case 5, 6:
+		m = c15Variant("", marker, form)
+	case 7:
+		return nil
+	}
 	out := []string{m}
 	if e := strings.Trim(toJSON(m), `"`); e != m {
 		out = append(out, e)
